@@ -1,3 +1,112 @@
 import Driver.Common
-/-! Model driver for C06 — not built yet. -/
-def main (_args : List String) : IO Unit := pure ()
+import Logrange.Model.TIndexId
+/-! Model driver for C06 (partition identity and FROM selection). State: the tag index (`TIndexId.St`).
+
+* `reset` → `ok`
+* `goc <raw> <create 0|1>` → `ok <id>` | `badtags` | `empty` | `notfound`         (`getOrCreateJournal`)
+* `visit <source>` → `model=<ok id*|rej> spec=<ok id*|rej>`  (ids sorted; spec = filter by the reference evaluator)
+* `eval <source> | <k> <v> …` → `model=<0|1|rej> spec=<0|1|rej>`                   (one tag set, stateless)
+* `like <pattern> <name>` → `1|0|bad`                                              (`path.Match`)
+* `safe <text>` → `0|1` (the parsed set is Safe; 1 for rejected texts), `safest` → `0|1` (every stored set is Safe)
+
+`<source>` is `none` | `tags <k> <v> … ;` | `expr <ast>`, with the AST in prefix form:
+`O <n> <and>*n`, and = `A <n> <x>*n`, x = `C <not> <ident> <op> <value>` | `E <not> <or>`,
+ident = `L <operand>` | `F <operand> <ident>` | `B <operand>`, op ∈ lt gt le ge ne eq like contains prefix suffix other.
+Case mapping in the driver is ASCII only (the harness uses ASCII operands under UPPER/LOWER).
+-/
+open Go Logrange Logrange.KV Logrange.Tags Logrange.TagsEval Logrange.TIndexId Driver
+
+def so : StrOps := ⟨asciiUpper, asciiLower, Logrange.PathMatch.pathMatch⟩
+
+def opOf : String → Op
+  | "lt" => .lt | "gt" => .gt | "le" => .le | "ge" => .ge | "ne" => .ne | "eq" => .eq
+  | "like" => .like | "contains" => .contains | "prefix" => .prefix_ | "suffix" => .suffix | _ => .other
+
+partial def pIdent : List String → Option (Ident × List String)
+  | "L" :: o :: r => some (.leaf (unhex o), r)
+  | "B" :: o :: r => some (.bad (unhex o), r)
+  | "F" :: o :: r => (pIdent r).map (fun (p, r') => (.call (unhex o) p, r'))
+  | _ => none
+
+mutual
+  partial def pOr : List String → Option (OrList × List String)
+    | "O" :: n :: r => pOrN n.toNat! r
+    | _ => none
+  partial def pOrN : Nat → List String → Option (OrList × List String)
+    | 0, r => some (.nil, r)
+    | k + 1, r => do
+      let (a, r1) ← pAnd r
+      let (t, r2) ← pOrN k r1
+      pure (.cons a t, r2)
+  partial def pAnd : List String → Option (AndList × List String)
+    | "A" :: n :: r => pAndN n.toNat! r
+    | _ => none
+  partial def pAndN : Nat → List String → Option (AndList × List String)
+    | 0, r => some (.nil, r)
+    | k + 1, r => do
+      let (x, r1) ← pX r
+      let (t, r2) ← pAndN k r1
+      pure (.cons x t, r2)
+  partial def pX : List String → Option (XCond × List String)
+    | "C" :: nt :: r => do
+      let (id, r1) ← pIdent r
+      match r1 with
+      | op :: v :: r2 => pure (.cond (nt == "1") ⟨id, opOf op, unhex v⟩, r2)
+      | _ => none
+    | "E" :: nt :: r => do
+      let (e, r1) ← pOr r
+      pure (.expr (nt == "1") e, r1)
+    | _ => none
+end
+
+def pairsOfToks : List String → List (Bytes × Bytes)
+  | k :: v :: r => (unhex k, unhex v) :: pairsOfToks r
+  | _ => []
+
+def pSource : List String → Option (Source × List String)
+  | "none" :: r => some (.none, r)
+  | "tags" :: r =>
+    let kv := r.takeWhile (· != ";")
+    some (.tags (Map.ofPairs (pairsOfToks kv)), (r.dropWhile (· != ";")).drop 1)
+  | "expr" :: r => (pOr r).map (fun (e, r') => (.expr e, r'))
+  | _ => none
+
+def insertNat (x : Nat) : List Nat → List Nat
+  | [] => [x]
+  | y :: ys => if x ≤ y then x :: y :: ys else y :: insertNat x ys
+def sortNat (l : List Nat) : List Nat := l.foldr insertNat []
+
+def showIds (l : List Nat) : String :=
+  if l.isEmpty then "ok" else "ok " ++ " ".intercalate ((sortNat l).map toString)
+
+def b01 (o : Option Bool) : String := match o with | some true => "1" | some false => "0" | none => "rej"
+
+def step (s : St) (toks : List String) : St × String :=
+  match toks with
+  | ["reset"] => ({}, "ok")
+  | ["goc", raw, c] =>
+    let (s', r) := getOrCreate s (unhex raw) (c == "1")
+    (s', match r with | .ok i => s!"ok {i}" | .badTags => "badtags" | .empty => "empty" | .notFound => "notfound")
+  | "visit" :: src =>
+    (match pSource src with
+     | some (sc, _) =>
+       let m := match visit so s sc with | some ds => showIds (ds.map Desc.src) | none => "rej"
+       -- SPEC: filter by the reference evaluator; rejected iff it rejects (on any set: use the empty set as probe too)
+       let all := s.tmap.map (·.2)
+       let sp := if (evalTagsRef so sc []).isNone || all.any (fun d => (evalTagsRef so sc d.tags).isNone) then "rej"
+                 else showIds ((all.filter (fun d => evalTagsRef so sc d.tags == some true)).map (·.src))
+       (s, s!"model={m} spec={sp}")
+     | none => (s, "bad-source"))
+  | "eval" :: rest =>
+    (match pSource rest with
+     | some (sc, r) =>
+       let m := Map.ofPairs (pairsOfToks ((r.dropWhile (· != "|")).drop 1))
+       let mo := (buildSource so sc).map (fun f => f m)
+       (s, s!"model={b01 mo} spec={b01 (evalTagsRef so sc m)}")
+     | none => (s, "bad-source"))
+  | ["like", p, n] => (s, match Logrange.PathMatch.pathMatch (unhex p) (unhex n) with | some true => "1" | some false => "0" | none => "bad")
+  | ["safe", t] => (s, match parse (unhex t) with | some m => (if safePinned m then "1" else "0") | none => "1")
+  | ["safest"] => (s, if s.tmap.all (fun e => safePinned e.2.tags) then "1" else "0")
+  | _ => (s, "bad-op")
+
+def main (args : List String) : IO Unit := Driver.run step ({} : St) args
